@@ -1,4 +1,5 @@
 """C02 - AddVersion is an atomic compare-and-append on the latest version."""
+from rules import http as H
 from rules import shared as S
 from tcss import world as WD
 
@@ -20,3 +21,5 @@ def run(rep, W, ctx):
     S.c01_key(rep, W)                   # stored with exactly the submitted parent and payload; becomes the latest
     S.c02_cnt(rep, W)                   # "nothing about the client changes" on reject / counter bookkeeping on accept
     S.c18_ops(rep, W)                   # reject exit is write-free
+    H.handler_args(rep, W)             # through the HTTP entry point: (validated client id, path id, accumulated body)
+    S.s_clientid(rep, W)
